@@ -5,10 +5,11 @@ package zzverif
 // Scratch / retained fields that Reset legitimately leaves alone (comma-separated field paths
 // relative to the object; naming a struct field ignores its whole subtree). None of them is
 // readable through the public API before it is rewritten:
-//   bufKV            scratch key/value used while a header/cookie/trailer is being set
-//   buf, queryArgs.buf, fullURI, requestURI, postArgs.buf
-//                    output buffers recomputed by QueryString()/FullURI()/RequestURI()/Cookie()
-//   maxKeepBodySize  connection-scoped configuration, retained on purpose (named in the property)
+//
+//	bufKV            scratch key/value used while a header/cookie/trailer is being set
+//	buf, queryArgs.buf, fullURI, requestURI, postArgs.buf
+//	                 output buffers recomputed by QueryString()/FullURI()/RequestURI()/Cookie()
+//	maxKeepBodySize  connection-scoped configuration, retained on purpose (named in the property)
 const (
 	IgnoreURI            = "queryArgs.buf,fullURI,requestURI"
 	IgnoreArgs           = "buf"
